@@ -48,9 +48,11 @@ def is_private_helper(j):
     if j.get("kind") not in ("Fn", "AssocFn"):
         return False
     v = j.get("vis")
+    pinned = _pinned()
+    if pinned and j.get("key") in pinned:
+        return False  # a function the pinned tree has stays itself, whatever its visibility is narrowed to
     if bool(v) and str(v).startswith("Restricted"):
         return True
-    pinned = _pinned()
     if j.get("from_expansion"):
         return False  # derive output
     if j.get("impl_trait"):
@@ -383,10 +385,8 @@ def _resolve_generic_callee(term, gmap, by_key):
     """A call `<P as Trait>::method` inside a spliced generic helper, with P now known: when the crate has that impl,
     the call is named after it (and can be spliced / evaluated like any other crate function)."""
     c = term.get("callee") or {}
-    if not c.get("trait") or not c.get("args"):
+    if not c.get("args"):
         return term
-    if c.get("key") and c["key"] != "%s::%s" % (c["trait"], c.get("name")):
-        return term  # already names an impl / a concrete function
     import re as _re
 
     def sub(x):
@@ -395,6 +395,18 @@ def _resolve_generic_callee(term, gmap, by_key):
             x = _re.sub(r"(?<![A-Za-z0-9_])%s(?![A-Za-z0-9_])" % _re.escape(str(g)), str(a), x)
         return x
 
+    if not c.get("trait"):
+        # a generic free function / inherent method called with the helper's own type parameter
+        # (`serde_bare::from_slice::<T>` inside `fn decode<T>()`): it is instantiated with what T stands for here
+        args = [sub(a) for a in c["args"]]
+        if args == list(c["args"]):
+            return term
+        nc = dict(c, args=args)
+        if c.get("args_full"):
+            nc["args_full"] = [sub(a) for a in c["args_full"]]
+        return dict(term, callee=nc)
+    if c.get("key") and c["key"] != "%s::%s" % (c["trait"], c.get("name")):
+        return term  # already names an impl / a concrete function
     args = [sub(a) for a in c["args"]]
     if args == list(c["args"]):
         return term
